@@ -86,7 +86,7 @@ func closeFlush(r *runner, n int) string {
 				close(swapped)
 				select {
 				case <-closeDone:
-				case <-time.After(3 * time.Second):
+				case <-time.After(patience(3 * time.Second)):
 				}
 			})
 		}
@@ -95,7 +95,7 @@ func closeFlush(r *runner, n int) string {
 	go func() { e.FlushImMemTables(); close(flushDone) }()
 	select {
 	case <-swapped:
-	case <-time.After(20 * time.Second):
+	case <-time.After(patience(20 * time.Second)):
 		return "bad hang flush-did-not-reach-the-swap"
 	}
 	closeErr := e.Close()
@@ -113,7 +113,7 @@ func closeFlush(r *runner, n int) string {
 	close(closeDone)
 	select {
 	case <-flushDone:
-	case <-time.After(20 * time.Second):
+	case <-time.After(patience(20 * time.Second)):
 		return "bad hang flush-did-not-finish"
 	}
 	atEnd := count()
@@ -280,7 +280,7 @@ func raceRunChild(r *runner, params string) *raceResult {
 	go func() { waited <- cmd.Wait() }()
 	select {
 	case err = <-waited:
-	case <-time.After(8 * time.Minute):
+	case <-time.After(patience(8 * time.Minute)):
 		cmd.Process.Kill()
 		<-waited
 		return &raceResult{exit: -1, problem: "bad hang child-did-not-exit"}
@@ -475,7 +475,7 @@ func coldChild(r *runner, p map[string]string) {
 		go func() { wg.Wait(); close(done) }()
 		select {
 		case <-done:
-		case <-time.After(60 * time.Second):
+		case <-time.After(patience(60 * time.Second)):
 			buf := make([]byte, 4<<20)
 			os.Stderr.Write(buf[:runtime.Stack(buf, true)])
 			r.emit("hang first-use")
